@@ -107,7 +107,7 @@ fn gen_case(c: &mut dyn Choices) -> Case {
   // (appended picks, recorded tapes keep their meaning) one case in eight starts with a burst of 30..70 more
   // items (many notifications pending at once)
   if c.pick(8) == 7 {
-    let m = 30 + c.pick(41);
+    let m = crate::ast::pick_size(c, 30, 41, &[130, 260]);
     let every = 1 + c.pick(12);
     let mut burst = vec![];
     for i in 0..m {
